@@ -655,11 +655,8 @@ where
 
     #[inline]
     async fn read_bytes_vec(&mut self) -> Result<Vec<u8>, ThriftException> {
-        let len = self.reader.read_i32_le().await? as usize;
-        // FIXME: use maybe_uninit?
-        let mut v = vec![0; len];
-        self.reader.read_exact(&mut v).await?;
-        Ok(v)
+        let len = self.reader.read_i32_le().await?;
+        super::read_wire_payload(&mut self.reader, len as i64).await
     }
 
     #[inline]
@@ -671,10 +668,8 @@ where
 
     #[inline]
     async fn read_string(&mut self) -> Result<String, ThriftException> {
-        let len = self.reader.read_i32_le().await? as usize;
-        // FIXME: use maybe_uninit?
-        let mut v = vec![0; len];
-        self.reader.read_exact(&mut v).await?;
+        let len = self.reader.read_i32_le().await?;
+        let v = super::read_wire_payload(&mut self.reader, len as i64).await?;
         Ok(unsafe { String::from_utf8_unchecked(v) })
     }
 
